@@ -151,6 +151,14 @@ class Injected(Exception):
 # --------------------------------------------------------------------------- generation
 
 def gen_edit_ops(rng, safe=False):
+    if rng.random() < 0.06:
+        # the same key filled from two different blocks within one chain, the first value
+        # moved away in between: each operation must read its own source
+        key, k2 = rng.choice(['out', 'a', 'b']), rng.choice(['c', 'd'])
+        first = rng.choice(['c0', 'c1'])
+        return [['add_output', key, first, rng.choice(['name', 'obj'])],
+                ['copy' if safe or rng.random() < 0.5 else 'rename', key, k2],
+                ['add_output', key, 'c1' if first == 'c0' else 'c0', rng.choice(['name', 'obj'])]]
     ops = []
     n = rng.choice([1, 1, 2, 2, 3, 3, 4, 4])
     for _ in range(n):
